@@ -212,6 +212,18 @@ def const_case(rng, tier, s, form):
             lens = [rng.randint(1, 1000) for _ in range(k - 1)]
             lens.insert(rng.randrange(k), s)
         return [{"big": True, "lens": lens, "dtype": d_, "op": o_} for d_, o_ in (("bool", "sum0"), ("int32", "np.sum0"), ("float64", "mean0"), ("uint8", "col_counts"), ("int64", "sum0"))]
+    from ..codeconst import CAPACITY
+    if (gen.FORCED.get("novel") or any(abs(s - c_) <= 1 for c_ in CAPACITY)) and form in ("rowlen", "cells", "rows"):
+        # a size the harness has not seen before, or one next to the capacity of a narrow integer type: every kind of column aggregate on boolean,
+        # narrow and wide elements (one case each) instead of one random case
+        out = []
+        for k, (d_, o_) in enumerate((("bool", "sum0"), ("bool", "mean0"), ("uint8", "np.sum0"), ("int64", "sum0"), ("float32", "mean0"), ("int16", "col_counts"), ("bool", "getcol"), ("float64", "np.mean0"))):
+            gen.FORCED["used"] = 0
+            lens, _ = gen.length_vector(rng, tier)
+            if not sum(lens):
+                continue
+            out.append(gen_case(rng, lens, d_, o_, vclass="small", j=(max(lens) - 1) if k % 2 else 0))
+        return out or None
     c = random_case(rng, tier)
     return c if gen.FORCED["used"] else None
 
